@@ -19,7 +19,7 @@ from elementpath.namespaces import XSLT_XQUERY_SERIALIZATION_NAMESPACE
 from elementpath.datatypes import AnyAtomicType, AnyURI, AbstractDateTime, \
     AbstractBinary, UntypedAtomic, QName
 from elementpath.xpath_nodes import XPathNode, ElementNode, AttributeNode, DocumentNode, \
-    NamespaceNode, TextNode, CommentNode
+    NamespaceNode, TextNode, CommentNode, ProcessingInstructionNode
 from elementpath.xpath_nodes import EtreeElementNode
 from elementpath.xpath_tokens import XPathToken, XPathMap, XPathArray
 from elementpath.protocols import EtreeElementProtocol, LxmlElementProtocol
@@ -290,6 +290,10 @@ def serialize_to_xml(elements: Iterable[Any],
     if method == 'xhtml':
         method = 'html'
 
+    def remove_tail(text: str, tail: Optional[str]) -> str:
+        # The serialized tail follows the last tag and cannot contain a '>' (it is escaped)
+        return text[:text.rfind('>') + 1] if tail else text
+
     chunks = []
     for item in iter_normalized(elements, item_separator):
         if isinstance(item, ElementNode):
@@ -303,6 +307,12 @@ def serialize_to_xml(elements: Iterable[Any],
             else:
                 chunks.append(item.value)
             continue
+        elif isinstance(item, CommentNode):
+            chunks.append(f'<!--{item.string_value}-->')
+            continue
+        elif isinstance(item, ProcessingInstructionNode):
+            chunks.append(f'<?{item.name} {item.string_value}?>')
+            continue
         elif not isinstance(item, str):
             raise xpath_error('SENR0001', token=token)
         else:
@@ -315,13 +325,13 @@ def serialize_to_xml(elements: Iterable[Any],
             )
         except TypeError:
             ck = etree_module.tostring(elem, encoding='utf-8', method=method)
-            chunks.append(ck.decode('utf-8').rstrip(elem.tail))
+            chunks.append(remove_tail(ck.decode('utf-8'), elem.tail))
         else:
             if cks and cks[0].startswith(b'<?'):
                 # use double quotes in the XML declaration (only)
                 head, sep, tail = cks[0].partition(b'?>')
                 cks[0] = head.replace(b'\'', b'"') + sep + tail
-            chunks.append(b'\n'.join(cks).decode('utf-8').rstrip(elem.tail))
+            chunks.append(remove_tail(b'\n'.join(cks).decode('utf-8'), elem.tail))
 
     if not character_map:
         return (item_separator or '').join(chunks)
